@@ -9,6 +9,8 @@ Verus has neither iterator adapters nor closures that own a `mut` accumulator, s
     (`let t = timelocks[i];` in front, the closure's trailing `acc` dropped, `i += 1` appended),
   * rewrites `x |= e` to `x = x || (e)` (R5).
 The closure BODY -- the four conflict pairs, the `k > 1` test and the five unions -- is the text of /repo.
+The same fold written as `let mut acc = INIT; for t in timelocks { BODY } acc` gets the same index loop (the names of
+the accumulator and of the element are read off the text; a BODY with continue / break / return is UNDECIDED).
 The same function is checked UN-rewritten by Kani (unit k18_timelock, bounded n <= 4); `combine_and/or`
 (`once(a).chain(once(b))`) are rewritten to the slice `&[a, b]` here and proved complete, un-rewritten, by Kani.
 
@@ -21,7 +23,8 @@ passed as a slice (R8); `combine_threshold` is the function verified in the firs
 """
 import re
 
-from vlib.verus import VerusFile, Contract, Clause, sub, lit, rule, R5_BOOL_OPASSIGN
+from vlib.verus import VerusFile, Contract, Clause, Undecided, sub, lit, rule, R5_BOOL_OPASSIGN
+from vlib.extract import match_close
 
 NAME = "c18_timelock"
 ENGINE = "verus"
@@ -136,19 +139,43 @@ INVARIANT = """
 """
 
 
+def _index_loop(it, acc, init, elem, body):
+    """`let mut ACC = INIT; let mut i = 0; while i < IT.len() INV { let ELEM = IT[i]; BODY i += 1; }` -- BODY token for token; the invariant names
+    the accumulator and the slice as the text does"""
+    code = re.sub(r"//[^\n]*", "", body)
+    if re.search(r"\b(continue|break|return)\b", code) or re.search(r"\bi\b", code) or acc == "i" or elem == "i":
+        raise Undecided("combine_threshold: loop body with continue / break / return or a local named `i` (index-loop rewrite not applicable)")
+    inv = re.sub(r"\btimelocks\b", it, re.sub(r"\bacc\b", acc, INVARIANT))
+    return ("let mut %s = %s;\n        let mut i: usize = 0;\n        while i < %s.len()" % (acc, init, it) + inv +
+            "        {\n            let %s = %s[i];\n            proof { lemma_step(k, %s@, i as int); }\n" % (elem, it, it) + body +
+            "\n            i += 1;\n        }\n        %s" % acc)
+
+
 @rule("R8-fold-to-index-loop")
 def fold_to_loop(text):
-    """`timelocks.into_iter().fold(Self::default(), |mut acc, t| { BODY acc })`  ->
-       `let mut acc = Self::default(); let mut i = 0; while i < timelocks.len() INV { let t = timelocks[i]; BODY i += 1; } acc`
-    BODY is copied token for token."""
-    m = re.search(r"timelocks\.into_iter\(\)\.fold\(Self::default\(\), \|mut acc, t\| \{\n(?P<body>.*?)\n(?P<ind>\s*)acc\n\s*\}\)", text, flags=re.S)
-    if not m:
-        return None
-    body = m.group("body")
-    new = ("let mut acc = Self::default();\n        let mut i: usize = 0;\n        while i < timelocks.len()" + INVARIANT +
-           "        {\n            let t = timelocks[i];\n            proof { lemma_step(k, timelocks@, i as int); }\n" + body +
-           "\n            i += 1;\n        }\n        acc")
-    return text[:m.start()] + new + text[m.end():]
+    """`IT.into_iter().fold(INIT, |mut ACC, ELEM| { BODY ACC })`                              (closure fold), or
+       `let mut ACC = INIT; for ELEM in IT[.into_iter()] { BODY } ACC`                       (the same fold written as a loop)  ->
+       `let mut ACC = INIT; let mut i = 0; while i < IT.len() INV { let ELEM = IT[i]; BODY i += 1; } ACC`
+    BODY is copied token for token; IT, ACC, ELEM, INIT are read off the text."""
+    m = re.search(r"\b(?P<it>\w+)\s*\.into_iter\(\)\s*\.fold\(\s*(?P<init>[^,|]+?)\s*,\s*\|\s*mut\s+(?P<acc>\w+)\s*,\s*(?P<elem>\w+)\s*\|\s*\{", text)
+    if m:
+        close = match_close(text, m.end() - 1)                 # the closure's `}`
+        inner = text[m.end():close]
+        mt = re.search(r"\n?[ \t]*\b%s\s*$" % re.escape(m.group("acc")), inner)  # the closure's trailing `ACC`
+        end = re.match(r"\s*\)", text[close + 1:])
+        if not mt or not end:
+            return None
+        body = inner[:mt.start()].strip("\n")
+        return text[:m.start()] + _index_loop(m.group("it"), m.group("acc"), m.group("init"), m.group("elem"), body) + text[close + 1 + end.end():]
+    m = re.search(r"\blet\s+mut\s+(?P<acc>\w+)\s*=\s*(?P<init>[^;]+?)\s*;\s*(?://[^\n]*\s*)*for\s+(?P<elem>\w+)\s+in\s+(?P<it>\w+)(?:\s*\.into_iter\(\))?\s*\{", text)
+    if m:
+        close = match_close(text, m.end() - 1)                 # the loop's `}`
+        tail = re.match(r"\s*%s\b" % re.escape(m.group("acc")), text[close + 1:])    # the accumulator is what follows the loop
+        if not tail:
+            return None
+        body = text[m.end():close].strip("\n").rstrip()
+        return text[:m.start()] + _index_loop(m.group("it"), m.group("acc"), m.group("init"), m.group("elem"), body) + text[close + 1 + tail.end():]
+    return None
 
 
 R8_SIG = sub("R8-generic-iter-to-slice", r"fn combine_threshold<I>\(k: usize, timelocks: I\) -> Self\s*where\s*I: IntoIterator<Item = Self>,",
